@@ -298,6 +298,13 @@ func cmdCheck(args []string) int {
 				specKeys = append(specKeys, k)
 			}
 		}
+		for _, pl := range fs.Extra["props"] {
+			for _, p := range strings.Fields(pl) {
+				if p == id {
+					specKeys = append(specKeys, k)
+				}
+			}
+		}
 	}
 	sort.Strings(specKeys)
 	for _, k := range specKeys {
